@@ -34,9 +34,33 @@ class _Docker:
         CALLS.append(call)
         return self._stream(call, host)
 
+    def _real_runner(self, call, host):
+        """The 'container' is the namespace sandbox of the C16 check: the volumes become its /scripts,
+        /results and /data, the command is run as given, its output is streamed, its exit status decides."""
+        import shutil
+        import sandbox
+        base = os.path.join(os.environ["VP_SANDBOX_BASE"], "sb%d" % len(CALLS))
+        os.makedirs(base)
+        root = sandbox.make_root(base, SCENARIO["backend"], host.get("/scripts"), filelist=None)
+        if host.get("/data"):
+            shutil.copytree(host["/data"], os.path.join(root, "data"), dirs_exist_ok=True)
+        cmd = call["command"] or ["/scripts/missing-command"]
+        o = sandbox.invoke(root, cmd[1:], "e2e", script=cmd[0])
+        call["e2e"] = {"exit": o["exit"], "tools": [c["tool"] for c in o["commands"]]}
+        for ln in o["output"].splitlines()[-5:]:
+            yield ("stdout", (ln + "\n").encode())
+        if o["exit"] != 0:
+            raise DockerException(["docker", "run"], o["exit"])
+        res = os.path.join(root, "results")
+        for f in os.listdir(res):
+            shutil.copy(os.path.join(res, f), os.path.join(host["/results"], f))
+
     def _stream(self, call, host):
         sc = SCENARIO
         kind = sc["container"]
+        if kind == "real_runner":
+            yield from self._real_runner(call, host)
+            return
         n = 0
         for i in range(sc.get("chunks", 3)):
             if kind == "fail_after" and i >= sc.get("fail_at", 0):
